@@ -201,11 +201,12 @@ def gen_degenerate():
     yield dict(kind='multiline', coords=[], cls='degenerate:empty')
     yield dict(kind='polygon', coords=[], cls='degenerate:empty')
     yield dict(kind='multipolygon', coords=[], cls='degenerate:empty')
-    yield dict(kind='multiline', coords=[[], [2, 2]], cls='degenerate:empty_subline')
-    yield dict(kind='multiline', coords=[[2, 2], []], cls='degenerate:empty_subline')
-    yield dict(kind='multiline', coords=[[2, 2], [], []], cls='degenerate:empty_subline')
-    yield dict(kind='multiline', coords=[[0, 0, 4, 4], [], [], [2, 2]], cls='degenerate:empty_subline')
-    yield dict(kind='multiline', coords=[[5, 5, 5, 5], [], [], [2, 2]], cls='degenerate:empty_subline')
+    # empty sub-lines contribute nothing (they used to raise: fix 4f9ad7e)
+    for coords in ([[1, 2, 3, 4], []], [[], [1, 2, 3, 4]], [[]], [[], [2, 2]], [[2, 2], []],
+                   [[2, 2], [], []], [[0, 0, 4, 4], [], [], [2, 2]], [[5, 5, 5, 5], [], [], [2, 2]],
+                   [[], [], [2, 2]], [[], []]):
+        sem = [[(c[i], c[i + 1]) for i in range(0, len(c), 2)] for c in coords]
+        yield dict(kind='multiline', coords=coords, sem=sem, cls='degenerate:empty_subline')
     yield dict(kind='polygon', coords=[[], [], [], [], [0, 0, 0, 2]], cls='degenerate:rings_gt_values')
     yield dict(kind='polygon', coords=[[0, 0, 0, 2]], cls='degenerate:open_ring')
     yield dict(kind='polygon', coords=[[0, 0, 4, 0, 4, 4]], cls='degenerate:open_ring')
@@ -542,7 +543,8 @@ def run(rep):
                 continue
             inds = rand_inds(rng, v.n)
             meta['inds'] = inds
-            check_one(rep, batch, vidx, sh['kind'], shape, inds, meta)
+            check_one(rep, batch, vidx, sh['kind'], shape, inds, {**meta, 'sem': sh.get('sem')},
+                      sem=sh.get('sem'))
             rep.evaluations += 1
             rep.count(sh['cls'])
     for j, (kind, shape) in enumerate(arrow_scalar_shapes()):
